@@ -17,7 +17,7 @@ cp "$DEMO" "$W/zz_seed_demo_test.go"
 RUN="^($(grep -o '^func Test[A-Za-z0-9_]*' "$DEMO" | sed 's/func //' | paste -sd'|'))\$"
 base=$(cd "$W" && go test -vet=off -count=1 -run "$RUN" . 2>&1 | tail -1)
 case "$base" in ok*) demo_without=pass;; *) demo_without="FAIL($base)";; esac
-if ! git -C "$W" apply "$PATCH" 2>/tmp/sv-apply.err; then echo "SEED $TAG: patch does not apply: $(head -2 /tmp/sv-apply.err)"; cleanup; exit 3; fi
+if ! git -C "$W" apply "$PATCH" 2>/tmp/sv-apply.err && ! git -C "$W" apply --3way "$PATCH" 2>/tmp/sv-apply.err; then echo "SEED $TAG: patch does not apply: $(head -2 /tmp/sv-apply.err)"; cleanup; exit 3; fi
 if ! (cd "$W" && go build ./... 2>/dev/null); then echo "SEED $TAG: does not build"; cleanup; exit 3; fi
 withd=$(cd "$W" && go test -vet=off -count=1 -run "$RUN" . 2>&1 | tail -1)
 case "$withd" in ok*) demo_with=pass;; *) demo_with=fail;; esac
